@@ -496,18 +496,15 @@ Proof.
     cbn [Reindex.step] in H.
     destruct (nthN (m_imports m) k) as [im|]; [|discriminate].
     destruct (negb (i_sp im =? 0)%N); [discriminate|].
-    unfold nthN in H.
-    destruct (nth_error (s_items (m_f m)) (N.to_nat k)) as [it|] eqn:Eit; [|discriminate].
-    destruct (is_local it) eqn:Ei; [inversion H; subst m'; exact W|].
-    destruct (delete_in m SF k) as [m1|] eqn:E; [|discriminate].
+    destruct (find_imp (s_items (m_f m)) k 0) as [p|]; [|inversion H; subst m'; exact W].
+    destruct (delete_in m SF p) as [m1|] eqn:E; [|discriminate].
     pose proof (delete_in_wf _ _ _ _ W E) as W1.
-    destruct (delete_in_ok _ _ _ _ E) as [it0 [Hit0 Em1]]. cbn [get_sp] in Hit0.
-    assert (it0 = it) by congruence. subst it0.
+    destruct (delete_in_ok _ _ _ _ E) as [it [Hit Em1]]. cbn [get_sp] in Hit.
     injection H as Hm Hr. subst m'.
     assert (Hr1 : s_recalc (m_f m1) = true) by (rewrite Em1; reflexivity). rewrite Hr1.
     apply (wf_with_sp m1 SF).
-    + apply (wf_space_to_local _ _ (get_sp m1 SF) k (set_del true it)); [exact (W1 SF)| |reflexivity].
-      rewrite Em1, get_with_same. cbn [s_items get_sp]. rewrite nth_error_upd_same, Eit. reflexivity.
+    + apply (wf_space_to_local _ _ (get_sp m1 SF) p (set_del true it)); [exact (W1 SF)| |reflexivity].
+      rewrite Em1, get_with_same. cbn [s_items get_sp]. rewrite nth_error_upd_same, Hit. reflexivity.
     + intros s' _. exact (W1 s').
   - (* ItAddGlobal *)
     cbn [Reindex.step] in H. inversion H; subst m'. apply (wf_with_sp m SG).
@@ -1087,8 +1084,9 @@ Proof.
 Qed.
 
 (* C11 / C10: the in-place conversions.  Right after convert_local_fn_to_import the id of the converted function
-   designates the new import; right after replace_import_in_module the id [k] (the ImportsID used as a FunctionID:
-   D07) designates the new local function. *)
+   designates the new import; right after replace_import_in_module the id of the function that carried the import
+   (resolved through the import since the repair of D07: it need not equal the ImportsID) designates the new local
+   function. *)
 Lemma l2i_item m id fp m' r it : mstep m (LocalToImport id fp) = Ok (m', r) ->
   nthN (s_items (m_f m)) id = Some it -> is_local it = true ->
   nthN (s_items (m_f m')) id = Some (mkItem id (Some (lenN (m_imports m))) false fp) /\
@@ -1105,15 +1103,53 @@ Proof.
   cbn [s_items get_sp with_sp set_sp m_f m_imports]. split; [|reflexivity].
   rewrite nthN_updN_same. unfold nthN. rewrite nth_error_upd_same. unfold nthN in Hit. rewrite Hit. reflexivity.
 Qed.
-Lemma i2l_item m k fp m' r it : mstep m (ImportToLocal k fp) = Ok (m', r) ->
-  nthN (s_items (m_f m)) k = Some it -> is_import it = true ->
-  nthN (s_items (m_f m')) k = Some (mkItem k None false fp).
+Lemma find_imp_spec : forall l k pos p, find_imp l k pos = Some p ->
+  (pos <= p)%N /\ exists it, nth_error l (N.to_nat (p - pos)) = Some it /\ it_imp it = Some k.
 Proof.
-  intros H Hit Hi. cbn [Reindex.step] in H.
+  induction l as [|i l IH]; intros k pos p H; [discriminate|]. cbn [find_imp] in H.
+  assert (Hrec : find_imp l k (pos + 1) = Some p ->
+                 (pos <= p)%N /\ exists it, nth_error (i :: l) (N.to_nat (p - pos)) = Some it /\ it_imp it = Some k).
+  { intros H'. destruct (IH _ _ _ H') as [Hle [it [Hn Hi]]]. split; [lia|]. exists it. split; [|exact Hi].
+    replace (N.to_nat (p - pos)) with (S (N.to_nat (p - (pos + 1)))) by lia. exact Hn. }
+  destruct (it_imp i) as [k'|] eqn:Ei; [|exact (Hrec H)].
+  destruct (N.eqb_spec k' k) as [->|Hne]; [|exact (Hrec H)].
+  inversion H; subst p. split; [lia|]. exists i. rewrite N.sub_diag. split; [reflexivity|exact Ei].
+Qed.
+Lemma find_imp_first : forall l k pos p it, nth_error l p = Some it -> it_imp it = Some k ->
+  (forall q b, nth_error l q = Some b -> it_imp b = Some k -> q = p) ->
+  find_imp l k pos = Some (pos + N.of_nat p)%N.
+Proof.
+  induction l as [|i l IH]; intros k pos p it Hn Hi Huniq; [destruct p; discriminate|].
+  cbn [find_imp]. destruct p as [|p].
+  - cbn in Hn. inversion Hn; subst i. rewrite Hi, N.eqb_refl. f_equal. lia.
+  - cbn in Hn.
+    assert (Hi0 : match it_imp i with Some k' => N.eqb k' k = false | None => True end).
+    { destruct (it_imp i) as [k'|] eqn:Ei; [|exact I]. destruct (N.eqb_spec k' k) as [->|]; [|reflexivity].
+      pose proof (Huniq 0 i eq_refl Ei). discriminate. }
+    assert (Hrec : find_imp l k (pos + 1) = Some (pos + 1 + N.of_nat p)%N).
+    { apply (IH k (pos + 1)%N p it Hn Hi). intros q b Hq Hb. pose proof (Huniq (S q) b Hq Hb). lia. }
+    replace (pos + N.of_nat (S p))%N with (pos + 1 + N.of_nat p)%N by lia.
+    destruct (it_imp i) as [k'|]; [rewrite Hi0|]; exact Hrec.
+Qed.
+(* in a well-formed state the function item that carries import entry [k] is unique, so it is the one found *)
+Lemma wf_find_imp m p it k : wf m -> nthN (s_items (m_f m)) p = Some it -> it_imp it = Some k ->
+  find_imp (s_items (m_f m)) k 0 = Some p.
+Proof.
+  intros W Hn Hi. unfold nthN in Hn.
+  rewrite (find_imp_first _ k 0%N (N.to_nat p) it Hn Hi).
+  - f_equal. lia.
+  - intros q b Hq Hb. exact (wf_inj _ _ _ (W SF) q (N.to_nat p) b it k Hq Hn Hb Hi).
+Qed.
+
+Lemma i2l_item m k fp m' r p it : wf m -> mstep m (ImportToLocal k fp) = Ok (m', r) ->
+  nthN (s_items (m_f m)) p = Some it -> it_imp it = Some k ->
+  nthN (s_items (m_f m')) p = Some (mkItem p None false fp).
+Proof.
+  intros W H Hit Hi. cbn [Reindex.step] in H.
   destruct (nthN (m_imports m) k) as [im|]; [|discriminate].
   destruct (negb (i_sp im =? 0)%N); [discriminate|].
-  rewrite Hit in H. rewrite (import_not_local _ Hi) in H.
-  destruct (delete_in m SF k) as [m1|] eqn:E; [|discriminate].
+  rewrite (wf_find_imp m p it k W Hit Hi) in H.
+  destruct (delete_in m SF p) as [m1|] eqn:E; [|discriminate].
   destruct (delete_in_ok _ _ _ _ E) as [it0 [Hit0 Em1]].
   injection H as Hm _. subst m' m1.
   cbn [s_items get_sp with_sp set_sp m_f m_imports].
@@ -1130,16 +1166,23 @@ Proof.
   destruct (l2i_item _ _ _ _ _ _ H Hit Hl) as [Hnew _].
   exact (wf_binding m' SF (step_wf _ _ _ _ W H) H2 l mp Hs _ (nth_error_In _ _ Hnew) eq_refl).
 Qed.
-Theorem i2l_binding m k fp m' r it : wf m -> mstep m (ImportToLocal k fp) = Ok (m', r) ->
-  nthN (s_items (m_f m)) k = Some it -> is_import it = true ->
+(* [p] is the FunctionID of the function that is import [k] - the id every use of the import carries *)
+Theorem i2l_binding m k fp m' r p it : wf m -> mstep m (ImportToLocal k fp) = Ok (m', r) ->
+  nthN (s_items (m_f m)) p = Some it -> it_imp it = Some k ->
   okD02 SF m' = true ->
   forall l mp, index_space (m_f m') = Ok (l, mp) ->
-  exists q, lookup mp k = Some q /\ nthN (space_of_model m' l SF) q = Some fp.
+  exists q, lookup mp p = Some q /\ nthN (space_of_model m' l SF) q = Some fp.
 Proof.
   intros W H Hit Hi H2 l mp Hs.
-  pose proof (i2l_item _ _ _ _ _ _ H Hit Hi) as Hnew.
+  pose proof (i2l_item _ _ _ _ _ _ _ W H Hit Hi) as Hnew.
   exact (wf_binding m' SF (step_wf _ _ _ _ W H) H2 l mp Hs _ (nth_error_In _ _ Hnew) eq_refl).
 Qed.
+(* with a non-function import in front: import entry 1 is function 0 *)
+Example i2l_binding_nonfunction_import_in_front :
+  let c := mkRC [(2, 7); (0, 1)]%N [11]%N [] [] 0%N [ImportToLocal 1 51]%N [] [] false None false false in
+  map it_fp (s_items (m_f (final_model c))) = [51; 11]%N /\ map it_imp (s_items (m_f (final_model c))) = [None; None] /\
+  map i_del (m_imports (final_model c)) = [false; true].
+Proof. vm_compute. repeat split; reflexivity. Qed.
 
 (* ------------------------------------------------------------------------------------------ *)
 (* everything in the checker's vocabulary: for every case (any base, any history), outside the class D02 as
